@@ -107,3 +107,12 @@ pub open spec fn ends_nl(b: Seq<u8>) -> bool { b.len() > 0 && b.last() == 10u8 }
 pub open spec fn strip_nl(b: Seq<u8>) -> Seq<u8> decreases b.len() {
     if ends_nl(b) { strip_nl(b.drop_last()) } else { b }
 }
+
+// ------------------------------------------------------------------ regex kind
+pub uninterp spec fn regex_clean1(e: Seq<char>) -> Seq<char>;
+pub uninterp spec fn regex_clean2(e: Seq<char>) -> Seq<char>;
+pub uninterp spec fn regex_clean3(e: Seq<char>) -> Seq<char>;
+pub open spec fn regex_cleaned(e: Seq<char>) -> Seq<char> { regex_clean3(regex_clean2(regex_clean1(e))) }
+/// the pattern that makes `e` match the WHOLE candidate: both anchors apply to the entire expression,
+/// also when `e` has a top-level alternation (`a|b`)
+pub open spec fn whole_line(e: Seq<char>) -> Seq<char> { seq!['^', '(', '?', ':'] + e + seq![')', '$'] }
